@@ -25,11 +25,12 @@ func init() {
 		c13KindBit(c)
 		wtPeekValidity(c, "C13.3b")
 		headerBytesComplete(c, "C13.3c") // the header is decoded from n complete bytes however the stream is fragmented
-		c14LengthForms(c) // C13.4 = C14.1-3
+		c14LengthForms(c)                // C13.4 = C14.1-3
 		c13BufferOwnership(c)
 		c13Prepared(c)
 		c13CloseFlushes(c, "C13.6c")
 		c13TransportUse(c)
+		wtCandidateRevision(c, "C13.10")
 	})
 	register("C14", func(c *core.Ctx, tier string) {
 		c14LengthForms(c)
@@ -39,6 +40,7 @@ func init() {
 		c13NoPartialFrames(c) // C14.4: one frame per message
 		c13WholePayload(c)
 		c14WriteOnlyTwoBuffers(c)
+		wtCandidateRevision(c, "C14.5")
 		c13KindBit(c)
 	})
 }
